@@ -23,13 +23,21 @@ W = World()
 Ob, SetOb, SeqOb, Prod, SetProd, BagOb = C.Ob, C.SetOb, C.SeqOb, C.Prod, C.SetProd, TBag(C.Ob)
 head, body = C.head, C.body
 PairOI = TTuple(Ob, TInt); BagPair = TBag(PairOI)
-MapII = TMap(TInt, TInt); MapRem = TMap(Ob, MapII); MapImp = TMap(Ob, BagPair)
+from pyvc.vtypes import _TArr
+IL = TRec('IntList', [('len', TInt), ('at', _TArr(TInt, TInt))])          # a Python list of ints: its length and its content
+MapRem = TMap(Ob, IL); MapImp = TMap(Ob, BagPair)
+class TFunPI(T):
+    """ghost function production -> index of its counter cell"""
+    name = 'fun[Prod->int]'
+    def sort(self): return ArraySort(Prod.sort(), IntSort())
+CELLT = TFunPI()
 class TFun2(T):
     """ghost function (symbol, index) -> production, as a z3 array"""
     name = 'fun[Ob,int->Prod]'
     def sort(self): return ArraySort(Ob.sort(), IntSort(), Prod.sort())
 PRT = TFun2()
-GT = TRec('CFGGen', [('Tm', SetOb), ('P', SetProd), ('impacts', MapImp), ('remaining', MapRem), ('added', SetOb), ('built', TBool),
+GT = TRec('CFGGen', [('Tm', SetOb), ('P', SetProd), ('impacts', MapImp), ('remaining', MapRem), ('added', SetOb), ('built', TBool), ('pr', PRT), ('cell', CELLT),       # ghosts: pr = the production a counter cell belongs to, cell = the index of a production's cell
+                    
                      ('gen', SetOb), ('gen_none', TBool), ('nul', SetOb), ('nul_none', TBool)])
 for py, f in [('_terminals', 'Tm'), ('_productions', 'P'), ('_impacts', 'impacts'), ('_remaining_lists', 'remaining'), ('_added_impacts', 'added')]: W.fields[('CFGGen', py)] = f
 W.consts['None'] = NONE_SYM
@@ -64,36 +72,86 @@ W.lemmas = {'count_facts': 'bridge/count.lean'}
 
 # ------------------------------------------------------------------ tables
 def rdom(R, s): return Select(MapRem.get(R, 'dom').term, s)
-def rmap(R, s): return Sym(MapII, Select(MapRem.get(R, 'val').term, s))
-def cdom(R, s, i): return And(rdom(R, s), Select(MapII.get(rmap(R, s), 'dom').term, i))
-def cval(R, s, i): return Select(MapII.get(rmap(R, s), 'val').term, i)
+def rlist(R, s): return Sym(IL, Select(MapRem.get(R, 'val').term, s))
+def cdom(R, s, i): return And(rdom(R, s), 0 <= i, i < rlist(R, s).len.term)          # (s, i) addresses a counter
+def cval(R, s, i): return Select(rlist(R, s).at.term, i)
+v_ = Const('v_', IntSort())
+W.contract(Contract('IntList.__len__', [('self', IL)], ret=TInt, pure=lambda o: o.self.len))
+W.contract(Contract('IntList.__getitem__', [('self', IL), ('i', TInt)], ret=TInt, requires=lambda o: And(0 <= o.i.term, o.i.term < o.self.len.term),        # negative indices (from the end) are not modelled: excluded
+                    pure=lambda o: Sym(TInt, Select(o.self.at.term, o.i.term))))
+W.contract(Contract('IntList.__setitem__', [('self', IL), ('i', TInt), ('v', TInt)], ret=IL, requires=lambda o: And(0 <= o.i.term, o.i.term < o.self.len.term),
+                    pure=lambda o: IL.make(len=o.self.len, at=Sym(_TArr(TInt, TInt), Store(o.self.at.term, o.i.term, o.v.term)))))
+W.contract(Contract('IntList.append', [('self', IL), ('v', TInt)], ret=TNone, modifies=('self',),
+                    ensures=lambda o, r, n: And(n.self.len.term == o.self.len.term + 1, n.self.at.term == Store(o.self.at.term, o.self.len.term, o.v.term), o.self.len.term >= 0)))
+W.empty_values = {'IntList': lambda: IL.make(len=Sym(TInt, IntVal(0)), at=Sym(_TArr(TInt, TInt), K(IntSort(), IntVal(0))))}
 def idom(I, c): return Select(MapImp.get(I, 'dom').term, c)
 def imult(I, c, s, i): return If(idom(I, c), Select(Select(MapImp.get(I, 'val').term, c), pair(s, i)), 0)
+def same_shape(R, R0):
+    """same keys, lists of the same length"""
+    return And(ForAll([s_], rdom(R, s_) == rdom(R0, s_)), ForAll([s_], Implies(rdom(R0, s_), rlist(R, s_).len.term == rlist(R0, s_).len.term)))
 def prod_of(PR, s, i): return Select(PR.term, s, i)
 def no_eps_bodies(G): return ForAll([pr, j_], Implies(And(G.P[pr], 0 <= j_, j_ < Length(body(pr))), body(pr)[j_] != EPSOB))
 def terminals_clean(G):
     """a terminal is not the head of an empty production (heads are variables): no symbol but the sentinel is queued twice"""
     return ForAll([x], Implies(G.Tm[x], ForAll([pr], Implies(And(G.P[pr], Length(body(pr)) == 0), head(pr) != x))))
-def tables_ok(G, PR):
-    R, I = G.remaining, G.impacts
-    return And(G.built.term,
-               ForAll([pr], Implies(And(G.P[pr], Length(body(pr)) > 0), Exists([i_], And(cdom(R, head(pr), i_), prod_of(PR, head(pr), i_) == pr)))),   # every non-empty production has a cell
-               ForAll([s_, i_], Implies(cdom(R, s_, i_), And(G.P[prod_of(PR, s_, i_)], head(prod_of(PR, s_, i_)) == s_, Length(body(prod_of(PR, s_, i_))) > 0))),
+def tables_ok(G, PR=None, doneP=None, skip=None, built=True):
+    """the tables describe the productions in doneP (default: all); `skip` = (s0, i0): a cell under construction, excluded from the per-cell clauses"""
+    R, I = G.remaining, G.impacts; PR = G.pr if PR is None else PR
+    inP = (lambda p_: G.P[p_]) if doneP is None else doneP
+    other = (lambda s, i: BoolVal(True)) if skip is None else (lambda s, i: Not(And(s == skip[0], i == skip[1])))
+    return And(G.built.term if built else BoolVal(True),
+               ForAll([pr], Implies(And(inP(pr), Length(body(pr)) > 0), And(cdom(R, head(pr), Select(G.cell.term, pr)), other(head(pr), Select(G.cell.term, pr)), prod_of(PR, head(pr), Select(G.cell.term, pr)) == pr))),   # every non-empty production has a cell
+               ForAll([s_, i_], Implies(And(cdom(R, s_, i_), other(s_, i_)), And(inP(prod_of(PR, s_, i_)), head(prod_of(PR, s_, i_)) == s_, Length(body(prod_of(PR, s_, i_))) > 0))),
                ForAll([c_, s_, i_], imult(I, c_, s_, i_) >= 0),
                ForAll([c_, s_, i_], Implies(imult(I, c_, s_, i_) > 0, cdom(R, s_, i_))),
-               ForAll([c_, s_, i_], Implies(cdom(R, s_, i_), imult(I, c_, s_, i_) == Occ(body(prod_of(PR, s_, i_)), c_))),                               # one entry per position
-               ForAll([s_], G.added[s_] == Exists([pr], And(G.P[pr], head(pr) == s_, Length(body(pr)) == 0))))
-def fresh_counters(G, PR):
-    return ForAll([s_, i_], Implies(cdom(G.remaining, s_, i_), cval(G.remaining, s_, i_) == Length(body(prod_of(PR, s_, i_)))))
-# ASSUMED contract of the table builder (its loops index Python lists by len(...) - 1; not within the engine).  It is also what justifies
-# reading already-built tables: they are written only here and by _get_generating_or_nullable, which restores them (contracts/cfg_cache.py).
+               ForAll([c_, s_, i_], Implies(And(cdom(R, s_, i_), other(s_, i_)), imult(I, c_, s_, i_) == Occ(body(prod_of(PR, s_, i_)), c_))),                               # one entry per position
+               ForAll([s_], G.added[s_] == Exists([pr], And(inP(pr), head(pr) == s_, Length(body(pr)) == 0))),
+               ForAll([s_], Implies(rdom(R, s_), rlist(R, s_).len.term >= 0)))
+def fresh_counters(G, PR=None, skip=None):
+    PR = G.pr if PR is None else PR
+    other = (lambda s, i: BoolVal(True)) if skip is None else (lambda s, i: Not(And(s == skip[0], i == skip[1])))
+    return ForAll([s_, i_], Implies(And(cdom(G.remaining, s_, i_), other(s_, i_)), cval(G.remaining, s_, i_) == Length(body(prod_of(PR, s_, i_)))))
+# ------------------------------------------------------------------ the table builder
+# Representation invariant of built tables (precondition of everything that reads them): consistent with the productions, counters at their
+# initial values.  The builder establishes it; _get_generating_or_nullable restores it (also proved in contracts/cfg_cache.py).
+def tables_inv(G): return Implies(G.built.term, And(tables_ok(G), fresh_counters(G)))
+OccPre = Function('OccPre', SeqOb.sort(), IntSort(), Ob.sort(), IntSort())          # occurrences among the first i positions   (List.count of List.take)
+OCCPRE_FACTS = [ForAll([sq, c_], OccPre(sq, 0, c_) == 0),
+                # step, with a trigger made of two existing terms (a pattern containing i + 1 is matched syntactically and is not reliable)
+                ForAll([sq, i_, j_, c_], Implies(And(0 <= i_, i_ < Length(sq), j_ == i_ + 1), OccPre(sq, j_, c_) == OccPre(sq, i_, c_) + If(sq[i_] == c_, 1, 0)),
+                       patterns=[MultiPattern(OccPre(sq, j_, c_), OccPre(sq, i_, c_))]),
+                ForAll([sq, c_], OccPre(sq, Length(sq), c_) == Occ(sq, c_))]
+W.axioms += OCCPRE_FACTS
+W.attr_none_tests = {('CFGGen', '_impacts'): lambda base: Not(base.built.term)}
+W.fields[('CFGGen', '_impacts')] = lambda o: o.impacts
+W.fields[('CFGGen', '_impacts', 'set')] = lambda base, val: base.t.update(base.t.update(base, 'impacts', val), 'built', Sym(TBool, BoolVal(True)))
+def cur_cell(e): return (head(e.production.term), e.index_impact.term)
+def build_inv(e, done):
+    G = e.self
+    return And(tables_ok(G, doneP=lambda p_: done[p_]), fresh_counters(G), frame_b(e))
+def build_inv_inner(e, i):
+    G = e.self; s0, i0 = cur_cell(e); b = body(e.production.term); dn = e.get('$done0')
+    return And(tables_ok(G, doneP=lambda p_: dn[p_], skip=(s0, i0)), fresh_counters(G, skip=(s0, i0)), frame_b(e),
+               e.head.term == s0, e.body.term == b, Length(b) > 0, cdom(G.remaining, s0, i0), cval(G.remaining, s0, i0) == Length(b),
+               ForAll([c_], imult(G.impacts, c_, s0, i0) == OccPre(b, i.term, c_)))
+def frame_b(e):
+    o = e.get('$old.self')
+    return And(e.self.Tm == o.Tm, e.self.P == o.P, e.self.gen == o.gen, e.self.gen_none == o.gen_none, e.self.nul == o.nul, e.self.nul_none == o.nul_none, e.self.built.term)
+def pr_update(e):
+    if e.get('index_impact') is None: return {}
+    b = body(e.production.term)
+    return {'self.pr': Sym(PRT, If(Length(b) > 0, Store(e.self.pr.term, head(e.production.term), e.index_impact.term, e.production.term), e.self.pr.term)),
+            'self.cell': Sym(CELLT, If(Length(b) > 0, Store(e.self.cell.term, e.production.term, e.index_impact.term), e.self.cell.term))}
 W.contract(Contract('CFGGen._set_impacts_and_remaining_lists', [('self', GT)], ret=TNone, modifies=('self',),
-    ensures=lambda o, r, n, g: And(tables_ok(n.self, g.PR), fresh_counters(n.self, g.PR), n.self.Tm == o.self.Tm, n.self.P == o.self.P,
-                                   n.self.gen == o.self.gen, n.self.gen_none == o.self.gen_none, n.self.nul == o.self.nul, n.self.nul_none == o.self.nul_none),
-    ghosts={'PR': PRT}))
+    requires=lambda o: tables_inv(o.self),
+    ensures=lambda o, r, n: And(tables_ok(n.self), fresh_counters(n.self), n.self.Tm == o.self.Tm, n.self.P == o.self.P,
+                                n.self.gen == o.self.gen, n.self.gen_none == o.self.gen_none, n.self.nul == o.self.nul, n.self.nul_none == o.self.nul_none,
+                                Implies(o.self.built.term, n.self == o.self)),
+    ghost_updates={'0': pr_update}, ghost_fields_of=('self',),
+    loops={'0': build_inv, '0.0': build_inv_inner}))
 
 # ------------------------------------------------------------------ the worklist
-BUILT = '$post._set_impacts_and_remaining_lists.self'; PRG = '$ghost._set_impacts_and_remaining_lists.PR'
+BUILT = '$post._set_impacts_and_remaining_lists.self'
 def base_of(e): return If(e.nullable.term, K(Ob.sort(), False), e.get(BUILT).Tm.term)
 def gns(e): return GNS(e.get(BUILT).P.term, base_of(e))
 def common(e, POP, pending_current=None):
@@ -104,13 +162,12 @@ def common(e, POP, pending_current=None):
                ForAll([x], Implies(Select(POP, x), g[x])), ForAll([x], Implies(tp[x] > 0, And(g[x], Or(x == EPSOB, Not(Select(POP, x)))))),
                ForAll([x], Implies(g[x], Or(Select(POP, x), tp[x] > 0, cur(x)))),
                ForAll([x], Implies(g[x], Or(x == EPSOB, Select(gns(e), x)))),
-               e.self.impacts == B0.impacts, e.self.added == B0.added, e.self.Tm == B0.Tm, e.self.P == B0.P, e.self.built.term,
+               e.self.impacts == B0.impacts, e.self.added == B0.added, e.self.Tm == B0.Tm, e.self.P == B0.P, e.self.built.term, e.self.pr == B0.pr, e.self.cell == B0.cell,
                e.self.gen == B0.gen, e.self.gen_none == B0.gen_none, e.self.nul == B0.nul, e.self.nul_none == B0.nul_none,
-               ForAll([s_], rdom(e.self.remaining, s_) == rdom(B0.remaining, s_)),
-               ForAll([s_, i_], cdom(e.self.remaining, s_, i_) == cdom(B0.remaining, s_, i_)))
+               same_shape(e.self.remaining, B0.remaining))
 def counters(e, POP, minus=None):
     """a symbol outside the result has, in each of its cells, |body| - (positions already popped) [- entries of the current symbol already handled], and that is > 0"""
-    g, B0, PR = e.g_symbols, e.get(BUILT), e.get(PRG)
+    g, B0 = e.g_symbols, e.get(BUILT); PR = B0.pr
     m = (lambda s, i: Select(minus.term, pair(s, i))) if minus is not None else (lambda s, i: 0)
     return ForAll([s_, i_], Implies(And(cdom(B0.remaining, s_, i_), Not(g[s_])),
                                     And(cval(e.self.remaining, s_, i_) == Length(body(prod_of(PR, s_, i_))) - NP(POP, body(prod_of(PR, s_, i_))) - m(s_, i_),
@@ -125,8 +182,13 @@ def inv_pre(e, done):          # loop 0, over _added_impacts
 def inv_ter(e, done):          # loop if0.0, over _terminals (only when nullable is False)
     return And(common(e, EMPTY), counters(e, EMPTY), ForAll([x], Implies(done[x], e.g_symbols[x])), added_in(e),
                ForAll([x], Implies(e.g_symbols[x], Or(x == EPSOB, e.get(BUILT).added[x], done[x]))))
+def restore(e, plus=None):
+    """every counter = its built value - entries of the cell in processed_with_modification (+ those already given back)"""
+    B0 = e.get(BUILT); pwm = e.processed_with_modification
+    back = (lambda s, i: Select(plus.term, pair(s, i))) if plus is not None else (lambda s, i: 0)
+    return ForAll([s_, i_], Implies(cdom(B0.remaining, s_, i_), cval(e.self.remaining, s_, i_) == cval(B0.remaining, s_, i_) - pwm[pair(s_, i_)] + back(s_, i_)))
 def pwm_ok(e):
-    return And(ForAll([s_, i_], e.processed_with_modification[pair(s_, i_)] >= 0),
+    return And(restore(e), ForAll([s_, i_], e.processed_with_modification[pair(s_, i_)] >= 0),
                ForAll([s_, i_], Implies(e.processed_with_modification[pair(s_, i_)] > 0, cdom(e.get(BUILT).remaining, s_, i_))))
 def inv_w(e, done): return And(common(e, pop(e)), counters(e, pop(e)), base_in(e), added_in(e), pwm_ok(e))
 def inv_w0(e, done):
@@ -136,17 +198,16 @@ def inv_w0(e, done):
                pwm_ok(e))
 def step_facts(e):
     """consequence of the counting facts, stated so that the term NP(POPPED + current, body) exists where it is needed"""
-    cur, PR, B0 = e.current.term, e.get(PRG), e.get(BUILT)
+    cur, B0 = e.current.term, e.get(BUILT); PR = B0.pr
     return ForAll([s_, i_], Implies(cdom(B0.remaining, s_, i_), NP(Store(pop(e), cur, True), body(prod_of(PR, s_, i_))) == NP(pop(e), body(prod_of(PR, s_, i_))) + Occ(body(prod_of(PR, s_, i_)), cur)))
 def sound_lemma(o):
     """a production whose body lies in a set of generating symbols (or the sentinel, which no body contains) has a generating head"""
     P = o.self.P; B = If(o.nullable.term, EMPTY, o.self.Tm.term)
     return ForAll([X_, pr], Implies(And(P[pr], AllIn(X_, body(pr)), ForAll([y], Implies(Select(X_, y), Or(y == EPSOB, Select(GNS(P.term, B), y))))), Select(GNS(P.term, B), head(pr))))
 def inv_r(e, done):            # restoring loop: the result set is final; cells listed in processed_with_modification exist
-    return And(ForAll([s_, i_], Implies(e.processed_with_modification[pair(s_, i_)] > 0, cdom(e.self.remaining, s_, i_))),
-               ForAll([s_], rdom(e.self.remaining, s_) == rdom(e.get(BUILT).remaining, s_)),
-               ForAll([s_, i_], cdom(e.self.remaining, s_, i_) == cdom(e.get(BUILT).remaining, s_, i_)),
-               e.self.Tm == e.get(BUILT).Tm, e.self.P == e.get(BUILT).P,
+    return And(restore(e, done), ForAll([s_, i_], e.processed_with_modification[pair(s_, i_)] >= 0), ForAll([s_, i_], Implies(e.processed_with_modification[pair(s_, i_)] > 0, cdom(e.get(BUILT).remaining, s_, i_))),
+               same_shape(e.self.remaining, e.get(BUILT).remaining),
+               e.self.Tm == e.get(BUILT).Tm, e.self.P == e.get(BUILT).P, e.self.pr == e.get(BUILT).pr, e.self.cell == e.get(BUILT).cell, e.self.impacts == e.get(BUILT).impacts, e.self.added == e.get(BUILT).added, e.self.built.term,
                e.self.gen == e.get(BUILT).gen, e.self.gen_none == e.get(BUILT).gen_none, e.self.nul == e.get(BUILT).nul, e.self.nul_none == e.get(BUILT).nul_none)
 
 def gn_post(o, r, n):
@@ -154,11 +215,12 @@ def gn_post(o, r, n):
     return And(ForAll([x], r[x] == And(x != EPSOB, Select(GNS(o.self.P.term, B), x))),
                n.self.Tm == o.self.Tm, n.self.P == o.self.P, n.self.gen == o.self.gen, n.self.gen_none == o.self.gen_none, n.self.nul == o.self.nul, n.self.nul_none == o.self.nul_none)
 W.contract(Contract('CFGGen._get_generating_or_nullable', [('self', GT), ('nullable', TBool)], ret=SetOb, modifies=('self',),
-    requires=lambda o: And(no_eps_bodies(o.self), terminals_clean(o.self)), ensures=gn_post,
+    requires=lambda o: And(no_eps_bodies(o.self), terminals_clean(o.self), tables_inv(o.self)), ensures=lambda o, r, n: And(gn_post(o, r, n), tables_ok(n.self), fresh_counters(n.self)),
     locals={'processed_with_modification': BagPair},
     ghost_state={'POP': (SetOb, lambda o: SetOb.empty())},
     ghost_updates={'1': lambda e: {'POP': Sym(SetOb, Store(e.get('$g.POP').term, e.current.term, True))}},
-    entry_lemmas=lambda o: [('a body inside the generating symbols gives a generating head', [ALLIN_DEF, GN_STEP], sound_lemma(o))],
+    entry_lemmas=lambda o: [('a body inside the generating symbols gives a generating head', [ALLIN_DEF, GN_STEP], sound_lemma(o)),
+                            ('the sentinel occurs in no body', [COUNT_FACTS[4], COUNT_FACTS[5]], ForAll([pr], Implies(o.self.P[pr], Occ(body(pr), EPSOB) == 0)))],
     loop_post={'1': lambda e: [e.g_symbols.term == pop(e),                                                                                   # nothing pending: the result is what was popped
                                ForAll([pr], Implies(And(e.get(BUILT).P[pr], AllIn(e.g_symbols.term, body(pr))), e.g_symbols[head(pr)]))]},   # and it is closed under the productions
     hints=lambda o, e, r: [gn_induction(o.self.P.term, If(o.nullable.term, EMPTY, o.self.Tm.term), Store(r.term, EPSOB, True))],
@@ -177,8 +239,8 @@ def memo_ok(G):
     return And(Or(G.gen_none.term, is_gns(G.gen.term, G, G.Tm.term)), Or(G.nul_none.term, is_gns(G.nul.term, G, EMPTY)))
 def wrapper(name, base, which):
     W.contract(Contract(name, [('self', GT)], ret=OPTSET, modifies=('self',),
-        requires=lambda o: And(no_eps_bodies(o.self), terminals_clean(o.self), memo_ok(o.self)),
-        ensures=lambda o, r, n: And(Not(r.isnone.term), is_gns(r.val.term, o.self, base(o)), memo_ok(n.self), n.self.P == o.self.P, n.self.Tm == o.self.Tm,
+        requires=lambda o: And(no_eps_bodies(o.self), terminals_clean(o.self), memo_ok(o.self), tables_inv(o.self)),
+        ensures=lambda o, r, n: And(Not(r.isnone.term), is_gns(r.val.term, o.self, base(o)), memo_ok(n.self), tables_inv(n.self), n.self.P == o.self.P, n.self.Tm == o.self.Tm,
                                     *( [n.self.nul == o.self.nul, n.self.nul_none == o.self.nul_none] if which == 'gen' else [n.self.gen == o.self.gen, n.self.gen_none == o.self.gen_none]))))
 wrapper('CFGGen.get_generating_symbols', lambda o: o.self.Tm.term, 'gen')
 wrapper('CFGGen.get_nullable_symbols', lambda o: EMPTY, 'nul')
@@ -186,7 +248,7 @@ wrapper('CFGGen.get_nullable_symbols', lambda o: EMPTY, 'nul')
 W.ground_sorts = (Ob.sort(),)
 W.special = {}
 _P = 'pyformlang/cfg/cfg.py'
-TARGETS = {'CFGGen._get_generating_or_nullable': (_P, 'CFG._get_generating_or_nullable'), 'CFGGen.get_generating_symbols': (_P, 'CFG.get_generating_symbols'),
+TARGETS = {'CFGGen._set_impacts_and_remaining_lists': (_P, 'CFG._set_impacts_and_remaining_lists'), 'CFGGen._get_generating_or_nullable': (_P, 'CFG._get_generating_or_nullable'), 'CFGGen.get_generating_symbols': (_P, 'CFG.get_generating_symbols'),
            'CFGGen.get_nullable_symbols': (_P, 'CFG.get_nullable_symbols')}
 SMOKE = [
     ('CFGGen.get_generating_symbols', _P, "            self._generating_symbols = self._get_generating_or_nullable(False)", "            self._generating_symbols = self._get_generating_or_nullable(True)", 'break'),
